@@ -29,7 +29,7 @@ RULE = (
     "nothing is reported after an error. Non-trivial: >= 2 matches, or macro files needed, or a failing/usage case; distinct by canonical hash."
 )
 ASSUMPTIONS = ["the CLI logs to stderr at INFO level by default (as shipped); 'Matched address: X' lines carry the API's list elements verbatim"]
-FLOORS = {"macro-files-not-in-alphabetical-order": 0.03, "kind=match": 0.5, "kind=failing": 0.08, "kind=usage": 0.03, "opt=all-matches": 0.25, "opt=only-address": 0.25, "macro-files": 0.15, "binary": 0.08, "extra=debug": 0.05, "opt-spelling=abbrev": 0.1, "opt-spelling=long": 0.2, "entry=console-script": 0.1}
+FLOORS = {"macro-files-not-in-alphabetical-order": 0.03, "kind=match": 0.5, "kind=failing": 0.08, "kind=usage": 0.03, "opt=all-matches": 0.25, "opt=only-address": 0.25, "macro-files": 0.15, "binary": 0.08, "extra=debug": 0.05, "opt-spelling=abbrev": 0.1, "opt-spelling=long": 0.2, "entry=console-script": 0.1, "relpaths=symlink-dotdot": 0.01, "via-stdin=input": 0.02}
 LINE = re.compile(r"Matched address: (.*)$")  # any line, whatever logger format it is printed in: the statement counts lines
 
 
@@ -91,11 +91,14 @@ def cases(draw):
     if src == "macro-files" and kind == "match" and draw(st.integers(0, 2)) == 0:
         # everything named relative to the working directory, the pattern in a sub-directory, and next to the pattern a decoy with the
         # name of each macro file but other definitions: the command must read the files the API reads for the same strings
-        c["relpaths"] = draw(st.sampled_from(["pattern-in-subdir+decoy", "pattern-in-subdir+decoy", "pattern-in-subdir", "all-in-cwd"]))
+        c["relpaths"] = draw(st.sampled_from(["pattern-in-subdir+decoy", "pattern-in-subdir+decoy", "pattern-in-subdir", "all-in-cwd", "symlink-dotdot", "symlink-dotdot"]))
     if src in ("broad", "macro-files") and draw(st.integers(0, 4)) == 0:
         c["double_listing"] = True  # the listing of an archive / of two objects: two `file format` title lines, addresses restart
     if src == "binary" and draw(st.integers(0, 2)) == 0:
         c["container"] = draw(st.sampled_from(["ar-two", "ar-two", "ar", "thin-ar", "coff"]))
+    if kind == "match" and src in ("broad", "macro-files") and not c.get("relpaths") and draw(st.integers(0, 7)) == 0:
+        # the listing (or the rule) is not a regular file: `objdump -d x | jasm -p r.yaml -s /dev/stdin`
+        c["via_stdin"] = draw(st.sampled_from(["input", "input", "pattern"]))
     if kind == "failing":
         c["failure"] = draw(st.sampled_from(["input-missing", "binary-on-text", "config-type", "undefined-macro", "rule-missing", "empty-group", "objdump-absent", "objdump-absent"]))
     return c
@@ -178,6 +181,24 @@ def evaluate(case):
         with open(input_path) as f_:
             input_path = put("listing.s", f_.read())
         macros = [put(f"{nm}_macros.yaml", jasm_io.dump_yaml({"macros": f})) for nm, f in zip(case["file_names"], case["macro_files"])]
+        if rel == "symlink-dotdot":
+            # `current` is a symbolic link to a directory two levels down: `current/../listing.s` is store/releases/listing.s (what the
+            # operating system resolves), not ./listing.s - where a decoy with other contents lies
+            os.makedirs(os.path.join(cwd, "store", "releases", "v2"), exist_ok=True)
+            if not os.path.islink(os.path.join(cwd, "current")):
+                os.symlink(os.path.join("store", "releases", "v2"), os.path.join(cwd, "current"))
+            with open(os.path.join(cwd, "listing.s")) as f_:
+                real = f_.read()
+            put(os.path.join("store", "releases", "listing.s"), real)
+            put("listing.s", render([("10", "zzq", [])]))
+            input_path = os.path.join("current", "..", "listing.s")
+            put(os.path.join("store", "releases", "rule.yaml"), jasm_io.rule_text(doc))
+            put("rule.yaml", "pattern:\n  - zzqq\n")
+            rule_path = os.path.join("current", "..", "rule.yaml")
+            macros = [put(os.path.join("store", "releases", f"{nm}_macros.yaml"), jasm_io.dump_yaml({"macros": f})) for nm, f in zip(case["file_names"], case["macro_files"])]
+            for nm, f in zip(case["file_names"], case["macro_files"]):
+                put(f"{nm}_macros.yaml", jasm_io.dump_yaml({"macros": [dict(m_, pattern="zzqq") for m_ in f]}))
+            macros = [os.path.join("current", "..", f"{nm}_macros.yaml") for nm in case["file_names"]]
         if rel.endswith("+decoy"):
             for nm, f in zip(case["file_names"], case["macro_files"]):
                 put(os.path.join(sub, f"{nm}_macros.yaml"), jasm_io.dump_yaml({"macros": [dict(m_, pattern="zzqq") for m_ in f]}))
@@ -259,7 +280,15 @@ def evaluate(case):
     entry = opts.get("entry", "module")
     if entry == "script":
         ev.tags.append("entry=console-script")
-    rc, out, err = jasm_io.cli(args, cwd, env_extra={"PATH": path_override} if path_override is not None else None, entry=entry)
+    stdin_text = None
+    if case.get("via_stdin") and not binary and kind == "match":
+        which = "-s" if case["via_stdin"] == "input" else "-p"
+        real = input_path if which == "-s" else rule_path
+        with open(real if os.path.isabs(real) else os.path.join(cwd, real)) as f_:
+            stdin_text = f_.read()
+        args = ["/dev/stdin" if a == real else a.replace(real, "/dev/stdin") if a.endswith("=" + real) else a for a in args]
+        ev.tags.append("via-stdin=" + case["via_stdin"])
+    rc, out, err = jasm_io.cli(args, cwd, env_extra={"PATH": path_override} if path_override is not None else None, entry=entry, stdin_text=stdin_text)
     ev.subcases = 2
     reported = [m.group(1) for ln in err.split("\n") for m in [LINE.search(ln)] if m]
     found_line = "RESULT: Pattern found" in err
